@@ -17,7 +17,7 @@ func init() {
 		Explanation: "Structural necessary conditions of 'audit precedes effect and disclosure; no plaintext secrets in entries', on every CFG path: " +
 			"(1) request audit success precedes backend dispatch in both request handlers; " +
 			"(2) in Core.handleCancelableRequest every return that can carry a response after the handlers ran crosses the success edge of AuditBroker.LogResponse, whose failure edge returns a nil response, and the Response put into that audit's LogInput is the response returned across the success edge (same origins; the only other origin allowed is the decoded body on the unwrap path; never absent); " +
-			"(3) AuditBroker.LogRequest/LogResponse report success only if some device accepted the entry (the only 'true' flowing into anyLogged sits on the device call's nil-error edge) or no device is configured, a panic in a device is recovered into an error, and the per-device header transformation replaces the raw headers before every device call; " +
+			"(3) AuditBroker.LogRequest/LogResponse report success only if some device accepted the entry (the local success flag or counter — initialised false/0, only set or incremented, tested afterwards — is set only on the device call's nil-error edge, and every normal return crosses it being non-zero, len(backends) being 0, or the failure error being appended) or no device is configured, a panic in a device is recovered into an error, and the per-device header transformation replaces the raw headers before every device call; " +
 			"(4) in non-raw mode every field of the audit entry structs is read out of the hashed copies returned by HashAuth/HashRequest/HashResponse, never from the LogInput directly; " +
 			"(5) the sanitisers overwrite every sensitive field (client token, accessors when configured, request/response data, nested auth, wrap info token/accessors) of a *copy* with the salted-HMAC function's result and return the copy; the map handed to hashMap is the very value the overwrite stores (resolved flow-sensitively at the call, so hashing the input's live map through the not-yet-overwritten copy field is refused); the walker writes back only the callback's result and skips a leaf only for map keys, non-strings, RFC3339 times and a leaf whose *own* current key is in the exemption list; " +
 			"(5b) hashMap hands HashStructure its own map, callback and exemption-list parameters unchanged; the walker's container and index stacks (cs/csKey) are pushed by Map/Slice/MapElem/SliceElem, popped by Exit on the matching location on every path, and written nowhere else; nothing is written into (or handed on from) the copy after hashMap hashed it; " +
@@ -36,11 +36,17 @@ func runC11(c *eng.Ctx, thorough bool) {
 			c.Clause("R2", "C11.1")
 			dispatch := instrsOf(eng.Calls(f, `vault\.\(\*Core\)\.doRoutingIfApproved$`))
 			c.Floor(f, "dispatch call", len(dispatch), 1)
-			c.Cut(f, "backend dispatch", dispatch, eng.GCallOK(f, `vault\.\(\*AuditBroker\)\.LogRequest$`), nil)
+			// the broker call: direct, or through a local closure that only forwards to it
+			audits := c11BrokerCalls(f, "LogRequest")
+			c.Cut(f, "backend dispatch", dispatch, c11AuditGuard("success edge of vault\\.\\(\\*AuditBroker\\)\\.LogRequest$", audits), nil)
 			// the entry audited is the request being dispatched
 			c.Clause("R5", "C11.1")
-			for _, lr := range eng.Calls(f, `vault\.\(\*AuditBroker\)\.LogRequest$`) {
-				in := lr.Common().Args[2]
+			for _, au := range audits {
+				lr, in := au.call, au.in
+				if in == nil {
+					c.Undecided(f, "prov{LogInput.Request audited}", lr.Pos(), "the LogInput handed to the broker through a forwarding closure could not be traced to the call's arguments; the rule cannot be evaluated")
+					continue
+				}
 				for _, v := range eng.StructLitField(in, "Request") {
 					c.Prov(f, "LogInput.Request audited", lr, v, `^param:req$`)
 				}
@@ -56,7 +62,8 @@ func runC11(c *eng.Ctx, thorough bool) {
 		c.Clause("R2", "C11.2")
 		handlers := instrsOf(eng.Calls(f, `vault\.\(\*Core\)\.(handleRequest|handleLoginRequest)$`))
 		c.Floor(f, "handler calls", len(handlers), 2)
-		logResp := eng.GCallOK(f, `vault\.\(\*AuditBroker\)\.LogResponse$`)
+		respAudits := c11BrokerCalls(f, "LogResponse")
+		logResp := c11AuditGuard("success edge of vault\\.\\(\\*AuditBroker\\)\\.LogResponse$", respAudits)
 		// returns reachable after a handler ran that may carry a non-nil response
 		exceptions := map[string]string{
 			"sdk/plugin/pb.LogicalRequestToProtoRequest": "control-group wrapping: marshalling the already-decoded request; failure returns the unwrapped response before the response audit — no input that makes it fail was found (triage A1); kept as a named exception",
@@ -92,7 +99,7 @@ func runC11(c *eng.Ctx, thorough bool) {
 						if len(fe) == 0 {
 							continue
 						}
-						for _, rr := range eng.ReturnsFrom(f, fe, nil, instrsOf(eng.Calls(f, `vault\.\(\*AuditBroker\)\.LogResponse$`))) {
+						for _, rr := range eng.ReturnsFrom(f, fe, nil, c11AuditInstrs(respAudits)) {
 							if rr == r && dominatedByEdges(f, r, fe) {
 								excused = callee + ": " + reason
 							}
@@ -110,10 +117,15 @@ func runC11(c *eng.Ctx, thorough bool) {
 		c.Floor(f, "response-carrying returns after the handlers", nRets, 2)
 		// failure edge of LogResponse returns nil response
 		c.Clause("R4", "C11.2")
-		for _, lr := range eng.Calls(f, `vault\.\(\*AuditBroker\)\.LogResponse$`) {
+		for _, au := range respAudits {
+			lr, in := au.call, au.in
 			c.NilResultOnEdges(f, "LogResponse failed", eng.CallFailEdges(lr), 0, "response")
 			// the response being audited is the one returned (or its decoded form for unwrap)
-			in := lr.Common().Args[2]
+			if in == nil {
+				c.Clause("R5", "C11.2")
+				c.Undecided(f, "prov{LogInput.Response audited = response returned across the audit's success edge}", lr.Pos(), "the LogInput handed to the broker through a forwarding closure could not be traced to the call's arguments; the rule cannot be evaluated")
+				continue
+			}
 			for _, v := range eng.StructLitField(in, "Request") {
 				c.Clause("R5", "C11.2")
 				c.Prov(f, "LogInput.Request in response audit", lr, v, `^param:req$`)
@@ -123,15 +135,17 @@ func runC11(c *eng.Ctx, thorough bool) {
 			site := "prov{LogInput.Response audited = response returned across the audit's success edge}"
 			auds := eng.StructLitField(in, "Response")
 			aud := map[ssa.Value]bool{}
+			escaped := false
 			for _, v := range auds {
-				c11PhiLeaves(v, aud)
+				// named results of a function with a defer are memory cells: read them at the point of use
+				escaped = c11CellLeaves(v, aud) || escaped
 			}
 			ret := map[ssa.Value]bool{}
 			for _, r := range eng.ReturnsFrom(f, eng.CallOKEdges(lr), nil, nil) {
 				vals, _, _ := eng.ReturnVals(r, 0)
 				for _, v := range vals {
 					if v != nil {
-						c11PhiLeaves(v, ret)
+						escaped = c11CellLeaves(v, ret) || escaped
 					}
 				}
 			}
@@ -162,6 +176,8 @@ func runC11(c *eng.Ctx, thorough bool) {
 				c.Violation(f, site, lr.Pos(), "the LogInput handed to LogResponse has no Response: the response about to be disclosed is not in the audit entry", nil)
 			case nRet == 0:
 				c.Undecided(f, site, lr.Pos(), "no response-carrying return found across the success edge of LogResponse; the rule cannot be evaluated")
+			case escaped && (len(missing) > 0 || len(foreign) > 0):
+				c.Undecided(f, site, lr.Pos(), fmt.Sprintf("the response variable is a memory cell whose address is visible to other code (closure / call): audited %v vs returned %v cannot be compared; the rule cannot be evaluated", foreign, missing))
 			case len(missing) > 0:
 				c.Violation(f, site, lr.Pos(), fmt.Sprintf("response value(s) %v can be returned to the client after the audit but are not what LogInput.Response carries (%d audited origin(s)): the entry does not describe the response disclosed", missing, len(aud)), nil)
 			case len(foreign) > 0:
@@ -183,14 +199,31 @@ func runC11(c *eng.Ctx, thorough bool) {
 		if !c.Floor(f, "device call", len(dev), 1) {
 			continue
 		}
-		trueEdges := eng.PhiEdgeSinks(f, "anyLogged", func(v ssa.Value) bool { return eng.Expr(v) == "true" })
-		if len(trueEdges) == 0 {
-			c.Violation(f, "anyLogged = true", f.Pos(), "no assignment anyLogged = true found: the broker can never record that a device accepted the entry (or the bookkeeping was restructured; re-read)", nil)
-		} else {
-			g := eng.Guard{Desc: "nil-error edge of the device call", Edges: eng.CallOKEdges(dev[0]), Pass: []ssa.Instruction{dev[0]}}
-			c.Cut(f, "anyLogged = true", trueEdges, g, nil)
+		// success bookkeeping, whatever its shape: a local flag or counter that starts at false/0, is
+		// only ever set / incremented, and is tested afterwards
+		devOK := eng.Guard{Desc: "nil-error edge of the device call", Edges: eng.CallOKEdges(dev[0]), Pass: []ssa.Instruction{dev[0]}}
+		var sets []ssa.Instruction
+		var blocked []eng.Edge
+		for _, w := range c11SuccessWebs(f) {
+			inWeb := func(v ssa.Value) bool { p, ok := v.(*ssa.Phi); return ok && w.phis[p] }
+			nz := c11ZeroTestEdges(f, inWeb, true)
+			if len(nz) == 0 {
+				continue // never tested: not the bookkeeping
+			}
+			sets = append(sets, w.sets...)
+			// only an accumulator whose every set sits behind the device's nil-error edge is evidence of acceptance
+			evidence := eng.Reach(eng.Query{Fn: f, Barriers: devOK.Pass, Target: eng.IsTarget(w.sets)}) == nil &&
+				eng.Reach(eng.Query{Fn: f, StartAfter: dev[0], Blocked: devOK.Edges, Barriers: devOK.Pass, Target: eng.IsTarget(w.sets)}) == nil
+			if evidence {
+				blocked = append(blocked, nz...)
+			}
 		}
-		// normal return without the 'no backend succeeded' error only if anyLogged or no backends
+		if len(sets) == 0 {
+			c.Undecided(f, "anyLogged = true", f.Pos(), "no local success flag / counter (initialised false/0, only set or incremented, tested afterwards) found: the broker's bookkeeping was restructured; the rule cannot be evaluated")
+		} else {
+			c.Cut(f, "anyLogged = true", sets, devOK, nil)
+		}
+		// normal return without the 'no backend succeeded' error only if a device accepted or no backends
 		var noBackendErr []ssa.Instruction
 		for _, ap := range eng.Calls(f, `go-multierror\.Append$`) {
 			noBackendErr = append(noBackendErr, ap)
@@ -201,11 +234,31 @@ func runC11(c *eng.Ctx, thorough bool) {
 				normalRets = append(normalRets, r)
 			}
 		}
-		blocked := append(eng.CondEdges(f, `^φanyLogged\{.*\}$`, true), eng.CondEdges(f, `^0 < len\(a\.backends\)$`, false)...)
+		backendsF := c.P.Field("vault.AuditBroker.backends")
+		if backendsF == nil {
+			c.Unresolved("vault.AuditBroker.backends")
+			continue
+		}
+		isLenBackends := func(v ssa.Value) bool {
+			cl, ok := v.(*ssa.Call)
+			if !ok || len(cl.Call.Args) != 1 {
+				return false
+			}
+			if bi, ok := cl.Call.Value.(*ssa.Builtin); !ok || bi.Name() != "len" {
+				return false
+			}
+			_, base := c14LoadOfField(cl.Call.Args[0], "backends")
+			if base == nil {
+				return false
+			}
+			ld := cl.Call.Args[0].(*ssa.UnOp)
+			return eng.FieldVar(ld.X) == backendsF
+		}
+		blocked = append(blocked, c11ZeroTestEdges(f, isLenBackends, false)...)
 		if h := eng.Reach(eng.Query{Fn: f, Barriers: noBackendErr, Blocked: blocked, Target: eng.IsTarget(normalRets)}); h != nil {
 			c.Violation(f, "return without error needs anyLogged ∨ no devices", h.Instr.Pos(), "the broker can return without appending the 'no audit backend succeeded' error although no device logged and devices exist", h.Witness)
 		} else {
-			c.OK(f, "return without error needs anyLogged ∨ no devices", normalRets[0].Pos(), "every return crosses anyLogged==true, len(backends)==0, or appends the failure error first")
+			c.OK(f, "return without error needs anyLogged ∨ no devices", normalRets[0].Pos(), "every return crosses 'a device accepted' (success flag/counter non-zero), len(backends)==0, or appends the failure error first")
 		}
 		// headers are transformed per device before the device call
 		c.Clause("R3", "C11.3")
@@ -344,17 +397,47 @@ func runC11(c *eng.Ctx, thorough bool) {
 				}
 				roots := eng.Roots(st.Val, fe)
 				okAll := len(roots) > 0
+				moved := true // every offending root is the result of some other function: the block may have been extracted
 				var rs []string
+				good := func(s string) bool {
+					return matches(want, s) || key == "audit.AuditResponseWrapInfo.Token" && matches(`^audit\.parseVaultTokenFromJWT\(\)`, s)
+				}
 				for _, r := range roots {
 					s := eng.Expr(r)
-					rs = append(rs, s)
-					if !matches(want, s) && !(key == "audit.AuditResponseWrapInfo.Token" && matches(`^audit\.parseVaultTokenFromJWT\(\)`, s)) {
-						okAll = false
+					if good(s) {
+						rs = append(rs, s)
+						continue
+					}
+					// result of a helper of this package that hands on the sanitiser's result?
+					if fw, ok := c11ForwardedRoots(f, r); ok {
+						all := true
+						var in []string
+						for _, x := range fw {
+							in = append(in, eng.Expr(x))
+							if !good(eng.Expr(x)) {
+								all = false
+							}
+						}
+						rs = append(rs, s+" = "+fmt.Sprint(in))
+						if all {
+							continue
+						}
+					} else {
+						rs = append(rs, s)
+					}
+					okAll = false
+					switch r.(type) {
+					case *ssa.Call, *ssa.Extract:
+					default:
+						moved = false
 					}
 				}
-				if okAll {
+				switch {
+				case okAll:
 					c.OK(f, "sensitive entry field "+key, st.Pos(), fmt.Sprintf("read out of %v", rs))
-				} else {
+				case moved && len(roots) > 0:
+					c.Undecided(f, "sensitive entry field "+key, st.Pos(), fmt.Sprintf("the value is the result of a function the rule cannot follow (sanitising block moved?): expected to be read out of %s, roots found: %v; the rule cannot be evaluated", want, rs))
+				default:
 					c.Violation(f, "sensitive entry field "+key, st.Pos(), fmt.Sprintf("non-raw value must be read out of the sanitiser result (%s); roots found: %v", want, rs), nil)
 				}
 			}
@@ -363,11 +446,26 @@ func runC11(c *eng.Ctx, thorough bool) {
 		c.Clause("R2", "C11.4")
 		write := instrsOf(eng.Calls(f, `<audit\.AuditFormatWriter>\.Write(Request|Response)$`))
 		c.Floor(f, "WriteRequest/WriteResponse call", len(write), 1)
-		for _, h := range []string{`audit\.HashAuth$`, `audit\.HashRequest$`} {
-			c.Cut(f, "entry write (non-raw)", write, eng.GCallOK(f, h), rawFalse)
-		}
+		hs := []string{`audit\.HashAuth$`, `audit\.HashRequest$`}
 		if strings.HasSuffix(fn, "FormatResponse") {
-			c.Cut(f, "entry write (non-raw)", write, eng.GCallOK(f, `audit\.HashResponse$`), rawFalse)
+			hs = append(hs, `audit\.HashResponse$`)
+		}
+		for _, h := range hs {
+			g := eng.GCallOK(f, h)
+			if len(g.Pass) == 0 {
+				// the sanitiser is called by a helper of this package: the helper must report success only
+				// across the sanitiser's success edge, and the entry is written only across the helper's
+				for hf, calls := range c11HashingHelpers(f, h) {
+					if n := hf.Signature.Results().Len(); n > 0 {
+						c.Cut(hf, "helper reports success", eng.SuccessReturns(hf, n-1), eng.GCallOK(hf, h), nil)
+						for _, cl := range calls {
+							g.Edges = append(g.Edges, eng.CallOKEdges(cl)...)
+							g.Pass = append(g.Pass, cl)
+						}
+					}
+				}
+			}
+			c.Cut(f, "entry write (non-raw)", write, g, rawFalse)
 		}
 	}
 
